@@ -2,13 +2,14 @@
 FUNCTIONS = ['base_server.BaseServer._get_socket', 'base_server.BaseServer.transport',
              'base_server.BaseServer._upgrades', 'server.Server.send_packet',
              'async_server.AsyncServer.send_packet']
-FUNCTIONS += ['server.Server.disconnect']
+FUNCTIONS += ['server.Server.disconnect', 'async_server.AsyncServer.disconnect']
 FUNCTIONS += ['server.Server.send', 'async_server.AsyncServer.send', 'server.Server.get_session',
               'server.Server.save_session', 'async_server.AsyncServer.get_session',
               'async_server.AsyncServer.save_session']
-FUNCTIONS += ['server.Server._handle_connect']
+FUNCTIONS += ['server.Server._handle_connect', 'async_server.AsyncServer._handle_connect']
+FUNCTIONS += ['server.Server._service_task', 'async_server.AsyncServer._service_task']
 
 LEVEL_TEXT = '_get_socket raises KeyError exactly for unknown or closed ids and reaps only the closed one; transport/get_session/save_session raise KeyError for dead ids and never touch another session (frame + unchanged()); send/send_packet on a dead id is a silent no-op; disconnect removes exactly that id / empties the table'
-LEVEL_NOTE = 'monitor sweep (_service_task) not yet under contract; session dict isolation relies on BaseSocket.__init__ allocating a fresh dict (inlined)'
+LEVEL_NOTE = 'monitor sweep (_service_task) is under contract for C07 (it only deletes closed sessions: its frame); session dict isolation relies on BaseSocket.__init__ allocating a fresh dict (inlined)'
 NOT_DECIDED = ['bounded number of sweeps (_service_task)', 'session() context manager']
 ASSUMPTIONS = [LEVEL_NOTE]
